@@ -192,7 +192,7 @@ PROPS = {
         "lean_modules": ["Vipnode.Props.C17"],
         "streams": [
             {"name": "codec-stream", "component": "codec", "cases": {"quick": 150, "thorough": 2000}, "no_shrink": True},
-            {"name": "codec-ws", "component": "codec", "gen": "codec-ws", "cases": {"quick": 9, "thorough": 60}, "no_shrink": True, "race": True},
+            {"name": "codec-ws", "component": "codec", "gen": "codec-ws", "cases": {"quick": 18, "thorough": 90}, "no_shrink": True, "race": True},
         ],
         "race": True,
         "monitor": monitors.c17_codec,
